@@ -315,6 +315,15 @@ CLAIMED = {
              "parsec_taskpool_wait returns after that pool's completion callback; every callback runs exactly once after the pool's last task; "
              "later epochs behave like the first.",
         design_ref="5/C06"),
+    "C18": dict(
+        engine="hypothesis+per-structure JDF build+mpi(E7)",
+        technique="Hypothesis-generated reshape programs (JDF templates instantiated per structure, compiled with the tree's parsec-ptgpp) on 1..4 ranks; Python reference model of pack/unpack per edge; all-ranks quiescence watchdog",
+        text="One producer writes m x n int tiles (m,n 2..6, ld m..m+2); 1..4 READ/RW consumers take the flow with [type] / [type_remote] in "
+             "{DEFAULT, FULL, UPPER, LOWER} on the output side, input side or both, on generated placements (local and remote edges, short limits, "
+             "broadcast topologies, 1..4 threads). Oracle: the selected elements equal the producer's (incl. LOWER<->UPPER repacking); RW markers "
+             "never reach the producer's tile or another consumer's copy, re-checked after all consumers and after context_wait. The documented "
+             "unsupported case (several remote shapes in short messages) is excluded and counted.",
+        design_ref="5/C18"),
     "C23": dict(
         engine="ptg(E5)+hypothesis",
         technique="generated parameter spaces; key distinctness and key_print round-trip oracle on the generated make_key/key_print",
